@@ -7,6 +7,7 @@ if [ ! -d .deps/jsonschema ]; then
   /venv/bin/pip install --no-index --find-links /opt/veriftools/wheels --target .deps jsonschema >/dev/null 2>&1 || true
 fi
 # (T) regenerate the Generated/*.lean tables from the typedpy working tree before the first build
-for t in extract/registries.py; do [ -f "$t" ] && PYTHONPATH="${VERIF_REPO:-/repo}:$(pwd)" /venv/bin/python -m "$(echo "${t%.py}" | tr / .)" >/dev/null; done
+export PYTHONHASHSEED=0
+PYTHONPATH="${VERIF_REPO:-/repo}:$(pwd):$(pwd)/.deps" /venv/bin/python -m harness.pregen
 cd lean
 lake build driver TypedpyModel 2>&1 | tail -5
